@@ -237,3 +237,48 @@ def table_equals(atoms, table, fn):
         if got != want:
             bad.append((sigma, got, want))
     return bad
+
+
+def simplify_conj(conds):
+    """a conjunction of canonical conditions with the redundant comparisons removed: tests of the same two operands are
+    intersected under trichotomy (`x <= 0 && x == 0` is `x == 0`; `x != 0 && !(0 < x)` is `x < 0`).  A pair tested once
+    keeps its text; so does a pair whose intersection is what one of its tests already says."""
+    REL = {"lt": frozenset(["lt"]), "eq": frozenset(["eq"])}
+    ALL = frozenset(["lt", "eq", "gt"])
+    groups, rest = {}, []
+    for c in conds:
+        a, pol = norm_atom(c)
+        sp = _split_top(a)
+        if sp is None or sp[1] not in ("<", "=="):
+            rest.append(c)
+            continue
+        l, op, r = sp
+        import re as _re
+        if _re.search(r"[A-Za-z_>\]]\(", l + " " + r) or "@mut" in l + r:
+            rest.append(c)          # a call or a reassigned local: two tests may see different values
+            continue
+        x, y = sorted((l, r))
+        rel = REL["eq"] if op == "==" else (REL["lt"] if (l, r) == (x, y) else frozenset(["gt"]))
+        if not pol:
+            rel = ALL - rel
+        groups.setdefault((x, y), []).append((c, rel))
+    out = list(rest)
+    for (x, y), items in groups.items():
+        if len(items) == 1:
+            out.append(items[0][0])
+            continue
+        res = ALL
+        for _, rel in items:
+            res = res & rel
+        same = [c for c, rel in items if rel == res]
+        if same:
+            out.append(same[0])
+        elif not res:
+            out.append("false")
+        elif res == ALL:
+            continue
+        else:
+            out.append({frozenset(["lt"]): "(%s < %s)" % (x, y), frozenset(["gt"]): "(%s < %s)" % (y, x), frozenset(["eq"]): "(%s == %s)" % (x, y),
+                        frozenset(["lt", "eq"]): "(%s <= %s)" % (x, y), frozenset(["gt", "eq"]): "(%s <= %s)" % (y, x),
+                        frozenset(["lt", "gt"]): "(%s != %s)" % (x, y)}[res])
+    return out
